@@ -237,11 +237,25 @@ func (e *Env) RunCheck(ctx context.Context, ev *CheckEv, ts *typesystem.TypeSyst
 			commands.WithCheckQueryV2Planner(&Forced{strings.TrimPrefix(ev.Eng, "v2:")}), commands.WithCheckQueryV2ConcurrencyLimit(10),
 			commands.WithCheckQueryV2UpstreamTimeout(3*time.Second))
 		var res *commands.CheckResult
-		res, err = q.Execute(ctx, &commands.CheckCommandParams{StoreID: e.StoreID,
+		// the weighted-graph Check has been seen to spawn resolver goroutines without bound (25 000 goroutines,
+		// 47 GB after six minutes, KF-28); a caller without a deadline gets one here, and a request that runs
+		// into it is recorded with its full input instead of taking the driver down.
+		rctx, rcancel := context.WithTimeout(ctx, V2RunawayLimit)
+		res, err = q.Execute(rctx, &commands.CheckCommandParams{StoreID: e.StoreID,
 			TupleKey:         tuple.NewCheckRequestTupleKey(ev.O.String(), ev.R, ev.U.String()),
 			ContextualTuples: CtxTuples(ev.Ctxt), Context: ev.Ctx.ToProto(), Consistency: consistency(ev.HC)})
+		ranAway := rctx.Err() == context.DeadlineExceeded && ctx.Err() == nil
+		rcancel()
 		if res != nil {
 			allowed = res.Allowed
+		}
+		if ranAway {
+			if err == nil {
+				err = context.DeadlineExceeded
+			}
+			ev.Got, ev.Errk, ev.Err = "ERR", "runaway", fmt.Sprintf("no answer within %s", V2RunawayLimit)
+			recordRunaway(ev)
+			return
 		}
 	default:
 		err = fmt.Errorf("unknown engine %q", ev.Eng)
